@@ -12,4 +12,9 @@ EmitBehaviour ==
 \* (accepted by the server; explored by the thorough tour and the random walks)
 NoReauth == c.authed # "" => hist'[Len(hist')].a # "Auth"
 EmitNoReauth == NoReauth /\ EmitBehaviour
+
+\* credential tour (ServerGenTourC.cfg): one SASL exchange per connection -- every credential class
+\* against every state of that one exchange
+OneAuth == hist'[Len(hist')].a = "Auth" => \A i \in 1..Len(hist) : hist[i].a # "Auth"
+EmitOneAuth == OneAuth /\ EmitBehaviour
 =============================================================================
